@@ -5,4 +5,6 @@
 EXTENDS PmmConc, PmmSkel
 MCPools == <<2, 1>>
 MCPoolsOne == <<2>>
+\* a first pool without a single managed frame left (used up by the kernel image), then the real one
+MCPoolsEmpty == <<0, 2>>
 ====
